@@ -284,6 +284,25 @@ def templates():
               ("call", V("f"), [I(100)])])
     T.append([("fndecl", "f", [("k", INT)], INT, [("whileset", "k", INT, I(7), ("block", [("break",)])), ("return", V("k"))]), ("call", V("f"), [I(100)])])
     T.append([("set", "c", I(7)), ("fndecl", "f", [("k", STR)], STR, [("ifset", "k", INT, V("c"), ("block", [I(0)]), ("block", [I(1)])), ("return", V("k"))]), ("call", V("f"), [("s", "outer")])])
+    # a function one of whose parameters has the function's OWN name, re-declaring an older binding of that name (a global
+    # function, a constant, a local), and the name used afterwards - directly, by a closure created before / after the
+    # re-declaration, inside a nested function, as a module field: the later uses denote the NEW function
+    inc = lambda k: ("fn", [("f", INT)], INT, [("return", ("bin", "add", V("f"), I(k)))])
+    old_fn = ("fndecl", "f", [("x", INT)], INT, [("return", ("bin", "add", V("x"), I(100)))])
+    new_fn = ("fndecl", "f", [("f", INT)], INT, [("return", ("bin", "mul", V("f"), I(50)))])
+    new_fn2 = ("fndecl", "f", [("a", INT), ("f", INT)], INT, [("return", ("bin", "sub", V("f"), V("a")))])
+    for old in (old_fn, ("set", "f", I(7)), ("set", "f", ("pre", "deref", ("mut", INT, I(7))))):
+        T.append([old, new_fn, ("call", V("f"), [I(1)])])
+        T.append([old, new_fn, ("set", "g", V("f")), ("call", V("g"), [I(2)])])
+        T.append([old, new_fn, ("fndecl", "b", [], INT, [("return", ("call", V("f"), [I(1)]))]), ("call", V("b"), [])])
+        T.append([old, ("fndecl", "w", [], INT, [new_fn, ("return", ("call", V("f"), [I(1)]))]), ("call", V("w"), [])])
+        T.append([old, ("fndecl", "w", [], ("any",), [new_fn, ("fndecl", "b", [], INT, [("return", ("call", V("f"), [I(3)]))]), ("return", V("b"))]),
+                  ("call", ("call", V("w"), []), [])])
+        T.append([old, ("set", "m", ("mod", [new_fn, ("set", "id", V("f"))])), ("call", ("facc", V("m"), "id"), [I(4)])])
+        T.append([old, ("block", [new_fn, ("call", V("f"), [I(5)])])])
+        T.append([old, new_fn2, ("call", V("f"), [I(1), I(10)])])
+    T.append([old_fn, ("fndecl", "a", [], INT, [("return", ("call", V("f"), [I(1)]))]), new_fn,
+              ("fndecl", "b", [], INT, [("return", ("call", V("f"), [I(1)]))]), ("tuple", [("call", V("a"), []), ("call", V("b"), [])])])
     return T
 
 
